@@ -424,6 +424,23 @@ def returned_truths(fn_node, decide):
                 continue
             atoms = {a: b for a, b in env.items() if a not in META}
             v = path_value(env.get(STMTS, ()), st, st.value, atoms)
+            # a local naming a call-free test (`same = a == b`) stands for that test inside the returned expression as well
+            tests_ = {}
+            for x in env.get(STMTS, ()):
+                if x is st:
+                    break
+                if isinstance(x, ast.Assign) and len(x.targets) == 1 and isinstance(x.targets[0], ast.Name):
+                    if isinstance(x.value, (ast.Compare, ast.BoolOp)) and not any(isinstance(c, ast.Call) for c in ast.walk(x.value)):
+                        tests_[x.targets[0].id] = x.value
+                    else:
+                        tests_.pop(x.targets[0].id, None)
+            if tests_ and any(isinstance(n, ast.Name) and n.id in tests_ for n in ast.walk(v)):
+                class _T(ast.NodeTransformer):
+                    def visit_Name(self, node):
+                        if isinstance(node.ctx, ast.Load) and node.id in tests_:
+                            return _clone_expr(tests_[node.id])
+                        return node
+                v = ast.fix_missing_locations(_T().visit(_clone_expr(v)))
 
             def inner(t, atoms=atoms):
                 return atoms[t] if t in atoms else decide(t)
